@@ -21,6 +21,19 @@ import (
 //                            critical section equals the number of critical sections, try=false has no
 //                            side effect on the holder, no hang
 //   case 2 ...               (model-only bounded schedule search) -> [0]
+//go:noinline
+func verifZeros() (int, int) { return 0, 0 }
+
+var verifScrubSink int
+
+// verifYieldScrub yields and returns with the integer result registers holding zero.
+func verifYieldScrub() {
+	runtime.Gosched()
+	a, b := verifZeros()
+	_ = a
+	_ = b
+}
+
 func TestVerifC08(t *testing.T) {
 	out := verifOpenOut()
 	defer out.Close()
@@ -84,6 +97,14 @@ func TestVerifC08(t *testing.T) {
 			out.Obs(c.id, obs)
 		case 1:
 			tasks, iters, seed := int(cur.Next()), int(cur.Next()), int64(cur.Next())
+			// the yield hook is an arbitrary function: registers are dead across the call. Every other
+			// stress case uses a hook that comes back with zeroed result registers (AX = BX = 0 under the
+			// register ABI), the others the scheduler's own yield.
+			if seed%2 == 1 {
+				yieldFn = verifYieldScrub
+			} else {
+				yieldFn = runtime.Gosched
+			}
 			// the lock sits between non-zero words: an implementation must only look at its own 4 bytes
 			var box struct {
 				before uint32
